@@ -625,7 +625,8 @@ fn c04_reader_annotations_b() {
     kani::cover!(sel == 16);
 }
 
-// @tier thorough
+// @tier offline
+// @offline not registered: exceeded the quick limits and was not run to completion
 // @timeout 900
 // @mem 20
 // @bounds size 8; stream read_c_string at cursor 0 without pointer, at cursor 6 (cell leaves the data) and at usize::MAX-1
